@@ -16,7 +16,10 @@ HSRC    := $(wildcard harness/*.cpp)
 HOBJ    := $(patsubst harness/%.cpp,$(B)/obj/%.o,$(HSRC))
 
 # runner -> objects (one TU per domain family so that 16 cores compile in parallel)
-RUNNERS := $(sort $(foreach s,$(HSRC),$(firstword $(subst __, ,$(basename $(notdir $(s)))))))
+RUNNERS := $(filter-out domreg,$(sort $(foreach s,$(HSRC),$(firstword $(subst __, ,$(basename $(notdir $(s))))))))
+# runners that analyse programs use every domain behind the type-erased wrapper (harness/domreg*)
+DOMREG_USERS := prog_runner inter_runner bwd_runner
+DOMREG_OBJS  := $(filter $(B)/obj/domreg.o $(B)/obj/domreg__%.o,$(HOBJ))
 
 all: $(addprefix $(B)/bin/,$(RUNNERS))
 
@@ -39,7 +42,7 @@ $(HOBJ): $(B)/obj/%.o: harness/%.cpp $(B)/include/crab/config.h
 PCT := %
 # a runner "foo" links harness/foo.cpp and every harness/foo__*.cpp
 .SECONDEXPANSION:
-$(B)/bin/%: $$(filter $(B)/obj/$$*.o $(B)/obj/$$*__$$(PCT).o,$(HOBJ)) $(B)/libCrab.a
+$(B)/bin/%: $$(filter $(B)/obj/$$*.o $(B)/obj/$$*__$$(PCT).o,$(HOBJ)) $$(if $$(filter $$*,$(DOMREG_USERS)),$(DOMREG_OBJS)) $(B)/libCrab.a
 	@mkdir -p $(dir $@)
 	g++ -o $@ $(filter %.o,$^) $(B)/libCrab.a $(LDLIBS)
 
